@@ -36,9 +36,11 @@ claim('C11',
       "Full-domain proofs (loop-free code, all 2^64 limb values, all sizes and allocations) that mpz_cmp_ui/_si, mpz_cmpabs_ui, the eight "
       "mpz_fits_*_p, mpz_get_ui/si/ux/sx and mpz_set_ui/si/ux/sx agree with exact 128-bit arithmetic (predicates true exactly on the "
       "representable range); mpz_cmp/mpz_cmpabs/mpn_cmp: sign decided by sizes, else by the highest differing limb (loop closed by invariant). "
-      "mpf_cmp (sign of the exact difference at the highest differing limb after exponent alignment), mpf_cmp_ui, mpf_cmp_si, the six mpf_fits_*_p, mpf_get_ui/si, mpf_set_ui/si: the same full-domain statements on the mpf format.",
+      "mpf_cmp (sign of the exact difference at the highest differing limb after exponent alignment), mpf_cmp_ui, mpf_cmp_si, the six mpf_fits_*_p, mpf_get_ui/si, mpf_set_ui/si: the same full-domain statements on the mpf format. Doubles: __gmp_extract_double - for EVERY positive finite double, normal or subnormal, the two limbs and the limb "
+      "exponent it returns denote d exactly ({rp[1],rp[0]} * 2^(64(e-2)) == m * 2^p with m, p read off the IEEE-754 fields; subnormal loop unwound completely); on top of it mpz_set_d (= trunc(d), sign, size, zero fill, "
+      "reallocation), mpz_cmp_d (sign of z - d for every z and every double incl. infinities: limb count, then the two significand limbs, then any non-zero lower limb of z / a fraction of d) and mpf_set_d (exact).",
       TB + "Four units are proved under two's-complement wrap-around of '-LONG_MIN' (signed-overflow check off, listed in evidence). "
-      "NOT covered: every double conversion (mpz_get_d, mpz_set_d, mpz_cmp_d, mpq_get_d, mpf_get_d, mpf_cmp_d), mpq_cmp*, mpz_sgn (a macro); mpq_equal is proved under C12.")
+      "NOT covered: the conversions TO double (mpn_get_d: mpz_get_d, mpz_get_d_2exp, mpq_get_d, mpf_get_d), mpq_set_d, mpf_cmp_d, mpz_cmpabs_d; NaN traps; mpq_cmp*, mpz_sgn (a macro); mpq_equal is proved under C12.")
 claim('C12',
       "Unbounded limb-exact proofs of mpq_inv (incl. dest==src pointer swap, sign moved to the numerator, DIVIDE_BY_ZERO exactly for 0), "
       "mpq_neg, mpq_abs, mpq_set, mpq_set_z, mpq_set_ui/si, mpq_set_num/den, mpq_get_num/den, mpq_swap: parts copied limb for limb, "
@@ -156,9 +158,9 @@ na('C08', 'no unit built in this round: only argument-handling glue of mpz_powm/
 na('C09', 'core slice attempted and undecided: the modexact identity behind the perfect-square residue filters did not come back from kissat in 10 min per divisor, the whole-function form in 30 min (DESIGN 11.3); Newton/Zimmermann root iterations are out of reach')
 claim('C13',
       "For the functions that are exact on the stored value - mpf_neg, mpf_abs, mpf_set (top min(size, prec+1) limbs, same exponent, every precision and "
-      "r == u), mpf_integer_p, mpf_get_ui, mpf_get_si, the six mpf_fits_*_p, mpf_set_ui/si, mpf_set_z, mpf_cmp, mpf_cmp_ui, mpf_cmp_si, mpf_swap, mpf_trunc, mpf_ceil, mpf_floor (increment exactly when a dropped limb is non-zero in the rounding direction), mpf_mul_2exp, mpf_div_2exp (top limbs shifted by e mod 64 bits, exponent adjusted, carry limb), mpf_set_prec, mpf_init2, mpf_clear - unbounded limb-exact proofs, and the mpf "
+      "r == u), mpf_integer_p, mpf_get_ui, mpf_get_si, the six mpf_fits_*_p, mpf_set_ui/si, mpf_set_z, mpf_cmp, mpf_cmp_ui, mpf_cmp_si, mpf_swap, mpf_trunc, mpf_ceil, mpf_floor (increment exactly when a dropped limb is non-zero in the rounding direction), mpf_mul_2exp, mpf_div_2exp (top limbs shifted by e mod 64 bits, exponent adjusted, carry limb), mpf_set_d (exact for every finite double, over the proved __gmp_extract_double), mpf_set_prec, mpf_init2, mpf_clear - unbounded limb-exact proofs, and the mpf "
       "format rules (top limb non-zero, at most prec+1 limbs in a block of exactly prec+1 limbs, zero has exponent 0) as a proved post-condition.",
-      TB + "NOT covered: mpf_add/sub/mul/div/sqrt and their _ui forms, mpf_set_q/set_d/set_str, mpf_get_str, mpf_ceil/floor with r == u (they hand mpn_add_1 a partially overlapping pair), mpf_mul_2exp/div_2exp with r == u and a bit shift (CBMC out of memory: undecided) - "
+      TB + "NOT covered: mpf_add/sub/mul/div/sqrt and their _ui forms, mpf_set_q/set_str, mpf_get_str, mpf_ceil/floor with r == u (they hand mpn_add_1 a partially overlapping pair), mpf_mul_2exp/div_2exp with r == u and a bit shift (CBMC out of memory: undecided) - "
       "i.e. every function with rounding; the 2^(2-p) relative error bound is a statement over reals that no contract here expresses.")
 na('C14', 'CBMC has no x86-64 assembly front end, so "assembly kernel == C kernel" is not a contract obligation for any .asm/.as file; fat binary and --enable-* build variants are configurations, not functions under contract (DESIGN.md section 6 C14)')
 na('C16', 'n!, binomials, Fibonacci/Lucas and primality are defined by unbounded products/recurrences and number theory; CBMC has no mathematical integers or induction over them, so no contract within reach expresses the property (DESIGN.md section 6 C16)')
